@@ -58,6 +58,16 @@ func dirEqual(a, b map[string]string, allowNew bool) (bool, string) {
 func C14(r *simkit.Run) {
 	t := r.T
 	w := NewWorld(r)
+	// A dev database that can no longer be opened is the worst kind of damage, not harness trouble.
+	readDev := func(when string) *observe.Dump {
+		d, err := observe.Read(w.DevDB)
+		if err != nil {
+			r.Nontrivial()
+			r.Fail(propC14, "handed-back-empty", "dev-database-damaged", "%s: the dev database file cannot be read any more: %v", when, err)
+			return &observe.Dump{Rows: map[string][]string{}}
+		}
+		return d
+	}
 	cell := int(r.Env.RunIndex) % (len(DevCommands) * len(DevStates))
 	command := DevCommands[cell%len(DevCommands)]
 	state := DevStates[cell/len(DevCommands)]
@@ -70,6 +80,15 @@ func C14(r *simkit.Run) {
 				f.Stmts[k] = MkStmt(fmt.Sprintf("f%d", f.Idx), k, KDDL)
 			}
 		}
+	}
+	// Triggers and views: objects the snapshot/restore has to cope with besides tables and indexes.
+	if t.Chance("trigger-in-directory", 1, 3) {
+		f := files[len(files)-1]
+		k := len(f.Stmts)
+		f.Stmts = append(f.Stmts,
+			Stmt{ID: fmt.Sprintf("f%d.s%d", f.Idx, k), Kind: KDDL, SQL: fmt.Sprintf("CREATE TRIGGER trg_f%d AFTER INSERT ON journal BEGIN UPDATE journal SET n = n + 1 WHERE id = new.id; END", f.Idx)},
+			Stmt{ID: fmt.Sprintf("f%d.s%d", f.Idx, k+1), Kind: KDDL, SQL: fmt.Sprintf("CREATE VIEW view_f%d AS SELECT id FROM journal", f.Idx)})
+		r.Probe("directory-with-trigger-and-view")
 	}
 	fault := []string{"none", "bad-statement", "crash"}[t.Weighted("fault", 2, 3, 2)]
 	if command == "migrate-lint" && fault == "crash" {
@@ -186,7 +205,10 @@ func C14(r *simkit.Run) {
 		w.ExpireLease()
 		r.Fired("crash-in-earlier-replay")
 	}
-	devBefore := w.ObserveDev()
+	devBefore := readDev("before the command")
+	if r.Failed() {
+		return
+	}
 	devBytes, _ := os.ReadFile(w.DevDB)
 	nonEmpty := len(devBefore.Master) > 0 || devBefore.HasRevTbl
 	if state == "leftovers" && !nonEmpty {
@@ -203,7 +225,15 @@ func C14(r *simkit.Run) {
 		r.Configured("crash-in-replay")
 	}
 	res := run(env)
-	devAfter := w.ObserveDev()
+	if _, err := observe.Read(w.DevDB); err != nil {
+		r.Nontrivial()
+		r.Fail(propC14, "handed-back-empty", "dev-database-damaged/"+command, "after `%s` (fault=%s -> %s) the dev database file cannot be read any more: %v", command, fault, res.Class(), err)
+		return
+	}
+	devAfter := readDev("after `" + command + "`")
+	if r.Failed() {
+		return
+	}
 	devBytesAfter, _ := os.ReadFile(w.DevDB)
 	dirAfter := w.DirSnapshot()
 	targetAfter := w.Observe()
@@ -225,12 +255,18 @@ func C14(r *simkit.Run) {
 		r.Fired("crash-in-replay")
 		// A killed command cannot clean up; what matters is the next command (below).
 		w.ExpireLease()
-		left := w.ObserveDev()
+		left := readDev("after the crash")
+		if r.Failed() {
+			return
+		}
 		if len(left.Master) > 0 {
 			r.Probe("leftovers-after-crash")
 		}
 		res2 := run(nil)
-		dev2 := w.ObserveDev()
+		dev2 := readDev("after the follow-up command")
+		if r.Failed() {
+			return
+		}
 		r.Logf("next %s on crashed dev -> %s same=%v", command, res2.Class(), devDigest(dev2) == devDigest(left))
 		r.Sample("next `%s` on the dev database the crash left behind -> %s (%s)", command, res2.Class(), firstN(res2.ErrLine(), 120))
 		if len(left.Master) > 0 {
